@@ -1119,8 +1119,11 @@ func main() {
 					}
 				}
 
+				// The simulation also ends when the last requested tick has been executed
+				simEnds := shutDownSim || i+1 == uint64(*simInteractions)
+
 				// This will get value to show on events
-				slist, err := bondmachine.EventListShow(shutDownSim, srep, srepOld, vm, oldVm)
+				slist, err := bondmachine.EventListShow(simEnds, srep, srepOld, vm, oldVm)
 				if err != nil {
 					log.Fatal(err)
 				}
@@ -1208,7 +1211,7 @@ func main() {
 						}
 
 						// This will get value to report on events
-						glist, err := bondmachine.EventListGet(shutDownSim, srep, srepOld, vm, oldVm)
+						glist, err := bondmachine.EventListGet(simEnds, srep, srepOld, vm, oldVm)
 						if err != nil {
 							log.Fatal(err)
 						}
